@@ -12,16 +12,18 @@ Proved (for every input, every precision):
   recurrences    log_spec, exp_spec (+ exp_taylor against Mathlib's `exp`), atan_spec, atanh_spec,
                  sinh_spec, cosh_spec, sin_spec, cos_spec (+ sin_taylor/cos_taylor against Mathlib's
                  `sin`/`cos`), sec_spec
-  composition    series_sound_partial: for every expression of the fragment `covered` (arithmetic, integer
+  composition    series_total_partial: for every expression of the fragment `covered` (arithmetic, integer
                  powers, exp, f^g, log, sin, cos, sec, atan, sinh, cosh, atanh, any nesting), if the model
                  of `series(e, x, prec)` answers, the answer is the formal Taylor series `D` of `e`
                  (relation `Den`, defined by composition in ℚ⟦X⟧) modulo `X^prec`.
-Stated, not proved (decided per generated sample by the two oracles of the harness):
-  `C31_full`: the same for tan, tanh, asin, asinh, lambertw and rational powers (Newton iterations on
-  inverse functions and series_nthroot).
+  Newton on inverse functions: series_tan_spec, series_tanh_spec (atan g ≡ s), series_lambertw_spec
+                 (g e^g ≡ s), series_nthroot_spec (g^n ≡ s), series_asin_spec, series_asinh_spec
+  composition, all functions: series_sound_partial: for every expression, every order and every formal
+                 Taylor series D of the expression (`Den e D`), the model's answer agrees with D below `prec`.
+Not proved: `C31_full` (completeness: the model answers whenever a denotation exists).
 -/
 import Mathlib.RingTheory.PowerSeries.WellKnown
-import SymVerif.Lemmas.C31Comp
+import SymVerif.Lemmas.C31All
 
 namespace SymVerif.C31
 open SymVerif SymVerif.Series PowerSeries
@@ -188,6 +190,17 @@ mutual
         Den (.app "Sinh" [a]) (C (1 / 2 : ℚ) * (fexp A - (fexp A)⁻¹))
     | cosh {a : Expr} {A : ℚ⟦X⟧} : Den a A → constantCoeff A = 0 →
         Den (.app "Cosh" [a]) (C (1 / 2 : ℚ) * (fexp A + (fexp A)⁻¹))
+    -- functions characterised by their defining equation (the solution is unique)
+    | tan {a : Expr} {A T : ℚ⟦X⟧} : Den a A → constantCoeff A = 0 → constantCoeff T = 0 → fatan T = A →
+        Den (.app "Tan" [a]) T
+    | tanh {a : Expr} {A T : ℚ⟦X⟧} : Den a A → constantCoeff A = 0 → constantCoeff T = 0 → fatanh T = A →
+        Den (.app "Tanh" [a]) T
+    | lambertw {a : Expr} {A W : ℚ⟦X⟧} : Den a A → constantCoeff A = 0 → constantCoeff W = 0 →
+        W * fexp W = A → Den (.app "LambertW" [a]) W
+    | asin {a : Expr} {A R : ℚ⟦X⟧} : Den a A → constantCoeff A = 0 → R * R * (1 - A * A) = 1 →
+        constantCoeff R = 1 → Den (.app "ASin" [a]) (integ (d⁄dX ℚ A * R))
+    | asinh {a : Expr} {A R : ℚ⟦X⟧} : Den a A → constantCoeff A = 0 → R * R * (1 + A * A) = 1 →
+        constantCoeff R = 1 → Den (.app "ASinh" [a]) (integ (d⁄dX ℚ A * R))
   /-- the dictionary of an `Add`: Σ key·coef -/
   inductive DenSum : List (Expr × Expr) → ℚ⟦X⟧ → Prop
     | nil : DenSum [] 0
@@ -207,6 +220,11 @@ mutual
         DenPow b e (fexp A)
     | gen {b e : Expr} {B A : ℚ⟦X⟧} : isE b = false → isNumExp e = false → Den b B → Den e A →
         constantCoeff B = 1 → DenPow b e (fexp (A * flog B))
+    -- rational powers: the root with positive constant term of a series with positive constant term
+    | ratPos {b : Expr} {B D : ℚ⟦X⟧} (n den : ℕ) : 1 ≤ n → 2 ≤ den → Den b B → 0 < constantCoeff B →
+        D ^ den = B ^ n → 0 < constantCoeff D → DenPow b (.rat (n : Int) den) D
+    | ratNeg {b : Expr} {B D : ℚ⟦X⟧} (n den : ℕ) : 1 ≤ n → 2 ≤ den → Den b B → 0 < constantCoeff B →
+        D ^ den * B ^ n = 1 → 0 < constantCoeff D → DenPow b (.rat (-(n : Int)) den) D
 end
 
 theorem toPS_constPoly (c : ℚ) : toPS (constPoly c) = C c := by
@@ -471,11 +489,276 @@ mutual
     | _ :: _ :: _, _, hc, _ => by simp [coveredArg] at hc
 end
 
+/-! ### soundness against every denotation (all modelled functions) -/
+
+/-- integer-exponent branch, against a given denotation -/
+theorem powInt_sound_all (prec : ℕ) (hp : 1 ≤ prec) (B : ℚ⟦X⟧) (p r : Poly) (hpB : EqMod prec (toPS p) B) :
+    (∀ n : ℕ, 1 ≤ n → powInt p (n : Int) prec = .ok r → EqMod prec (toPS r) (B ^ n)) ∧
+    (∀ n : ℕ, 1 ≤ n → constantCoeff B ≠ 0 → powInt p (-(n : Int)) prec = .ok r →
+      EqMod prec (toPS r) (B⁻¹ ^ n)) := by
+  constructor
+  · intro n hn h
+    unfold powInt at h
+    split at h
+    · next h1 =>
+      have : (n : Int) = 1 := by simpa using h1
+      have hn1 : n = 1 := by omega
+      subst hn1
+      cases h
+      simpa using hpB
+    · split at h
+      · rw [Int.toNat_natCast] at h
+        exact (powTrunc_pos_spec p n prec hn r h).trans (hpB.pow n)
+      · next _ hneg => exact absurd (by omega : (n : Int) > 0) hneg
+  · intro n hn hc h
+    unfold powInt at h
+    split at h
+    · next h1 =>
+      have : -(n : Int) = 1 := by simpa using h1
+      omega
+    · split at h
+      · next _ hpos => exact absurd hpos (by omega)
+      · split at h
+        · next h1 =>
+          have : -(n : Int) = -1 := by simpa using h1
+          have hn1 : n = 1 := by omega
+          subst hn1
+          rw [pow_one]
+          exact eqMod_inv_of_mul (invert_spec p r prec h) hpB hc
+        · simp only [bind, Except.bind] at h
+          split at h
+          · cases h
+          · next q hq =>
+            have hq' : EqMod prec (toPS q) B⁻¹ := eqMod_inv_of_mul (invert_spec p q prec hq) hpB hc
+            have : (- -(n : Int)).toNat = n := by simp
+            rw [this] at h
+            exact (powTrunc_pos_spec q n prec hn r h).trans (hq'.pow n)
+
+/-- the Pow visitor against a given denotation -/
+theorem powDispatch_sound_all (prec : ℕ) (hp : 1 ≤ prec) (b e : Expr) (rb re : Except Err Poly)
+    (ihb : ∀ p B, rb = .ok p → Den b B → EqMod prec (toPS p) B)
+    (ihe : ∀ p A, re = .ok p → Den e A → EqMod prec (toPS p) A)
+    (r : Poly) (D : ℚ⟦X⟧) (h : powDispatch b e rb re prec = .ok r) (hD : DenPow b e D) :
+    EqMod prec (toPS r) D := by
+  cases hD with
+  | posInt n hn hB =>
+    unfold powDispatch at h
+    simp only at h
+    cases hrb : rb with
+    | error er => rw [hrb] at h; simp [bind, Except.bind] at h
+    | ok p =>
+      rw [hrb] at h
+      simp only [bind, Except.bind] at h
+      exact (powInt_sound_all prec hp _ p r (ihb p _ hrb hB)).1 n hn h
+  | negInt n hn hB hc =>
+    unfold powDispatch at h
+    simp only at h
+    cases hrb : rb with
+    | error er => rw [hrb] at h; simp [bind, Except.bind] at h
+    | ok p =>
+      rw [hrb] at h
+      simp only [bind, Except.bind] at h
+      exact (powInt_sound_all prec hp _ p r (ihb p _ hrb hB)).2 n hn hc h
+  | ratPos n den hn hden hB hB0 hDd hD0 =>
+    unfold powDispatch at h
+    simp only at h
+    cases hrb : rb with
+    | error er => rw [hrb] at h; simp [bind, Except.bind] at h
+    | ok p =>
+      rw [hrb] at h
+      simp only [bind, Except.bind] at h
+      exact powRat_sound_pos p r n den prec hn hden hp h (ihb p _ hrb hB) hDd hD0
+  | ratNeg n den hn hden hB hB0 hDd hD0 =>
+    unfold powDispatch at h
+    simp only at h
+    cases hrb : rb with
+    | error er => rw [hrb] at h; simp [bind, Except.bind] at h
+    | ok p =>
+      rw [hrb] at h
+      simp only [bind, Except.bind] at h
+      exact powRat_sound_neg p r n den prec hn hden hp h (ihb p _ hrb hB) (ne_of_gt hB0) hDd hD0
+  | exp hE hnum hA hA0 =>
+    unfold powDispatch at h
+    split at h
+    · simp [isNumExp] at hnum
+    · simp [isNumExp] at hnum
+    rw [if_pos hE] at h
+    cases hre : re with
+    | error er => rw [hre] at h; simp [bind, Except.bind] at h
+    | ok q =>
+      rw [hre] at h
+      simp only [bind, Except.bind] at h
+      exact (exp_specC q r prec hp h (ihe q _ hre hA)).2
+  | gen hE hnum hB hA hB1 =>
+    unfold powDispatch at h
+    split at h
+    · simp [isNumExp] at hnum
+    · simp [isNumExp] at hnum
+    rw [if_neg (by simp [hE])] at h
+    cases hre : re with
+    | error er => rw [hre] at h; simp [bind, Except.bind] at h
+    | ok q =>
+      cases hrb : rb with
+      | error er => rw [hre, hrb] at h; simp [bind, Except.bind] at h
+      | ok p =>
+        rw [hre, hrb] at h
+        simp only [bind, Except.bind] at h
+        cases hl : seriesLog p prec with
+        | error er => rw [hl] at h; simp at h
+        | ok l =>
+          rw [hl] at h
+          simp only at h
+          obtain ⟨_, hlB⟩ := log_specC p l prec hp hl (ihb p _ hrb hB)
+          have hqA := ihe q _ hre hA
+          have hml := (EqMod.of_eq (toPS_mulFull q l) (n := prec)).trans (hqA.mul hlB)
+          exact (exp_specC (mulFull q l) r prec hp h hml).2
+
+mutual
+  theorem apply_sound_all (prec : ℕ) (hp : 1 ≤ prec) :
+      ∀ (e : Expr) (p : Poly) (D : ℚ⟦X⟧), apply prec e = .ok p → Den e D → EqMod prec (toPS p) D
+    | .int n, p, D, h, hD => by
+      cases hD
+      simp only [apply] at h
+      cases h
+      exact EqMod.of_eq (toPS_constPoly _)
+    | .rat n d, p, D, h, hD => by
+      cases hD
+      simp only [apply] at h
+      cases h
+      exact EqMod.of_eq (toPS_constPoly _)
+    | .sym name, p, D, h, hD => by
+      cases hD
+      simp only [apply] at h
+      cases h
+      exact EqMod.of_eq toPS_var
+    | .add c ts, p, D, h, hD => by
+      cases hD with
+      | add hA hT =>
+        simp only [apply, bind, Except.bind] at h
+        split at h
+        · cases h
+        · next t ht =>
+          exact applyAdd_sound_all prec hp ts t p _ _ (apply_sound_all prec hp c t _ ht hA) h hT
+    | .mul c fs, p, D, h, hD => by
+      cases hD with
+      | mul hA hP =>
+        simp only [apply, bind, Except.bind] at h
+        split at h
+        · cases h
+        · next t ht =>
+          exact applyMul_sound_all prec hp fs t p _ _ (apply_sound_all prec hp c t _ ht hA) h hP
+    | .pow b e, p, D, h, hD => by
+      cases hD with
+      | pow hDP =>
+        simp only [apply] at h
+        exact powDispatch_sound_all prec hp b e _ _
+          (fun q B hq hB => apply_sound_all prec hp b q B hq hB)
+          (fun q A hq hA => apply_sound_all prec hp e q A hq hA) p D h hDP
+    | .app hd [a], p, D, h, hD => by
+      simp only [apply, applyArg, bind, Except.bind] at h
+      split at h
+      · cases h
+      · next q hq =>
+        cases hD with
+        | sin hA h0 => exact (sin_specC q p prec hp (by simpa [applyFun] using h) (apply_sound_all prec hp a q _ hq hA)).2
+        | cos hA h0 => exact (cos_specC q p prec hp (by simpa [applyFun] using h) (apply_sound_all prec hp a q _ hq hA)).2
+        | sec hA h0 => exact (sec_specC q p prec hp (by simpa [applyFun] using h) (apply_sound_all prec hp a q _ hq hA)).2
+        | log hA h0 => exact (log_specC q p prec hp (by simpa [applyFun] using h) (apply_sound_all prec hp a q _ hq hA)).2
+        | atan hA h0 => exact (atan_specC q p prec hp (by simpa [applyFun] using h) (apply_sound_all prec hp a q _ hq hA)).2
+        | atanh hA h0 => exact (atanh_specC q p prec hp (by simpa [applyFun] using h) (apply_sound_all prec hp a q _ hq hA)).2
+        | sinh hA h0 => exact (sinh_specC q p prec hp (by simpa [applyFun] using h) (apply_sound_all prec hp a q _ hq hA)).2
+        | cosh hA h0 => exact (cosh_specC q p prec hp (by simpa [applyFun] using h) (apply_sound_all prec hp a q _ hq hA)).2
+        | tan hA h0 hT0 hT =>
+          exact tan_sound q p prec hp (by simpa [applyFun] using h) (apply_sound_all prec hp a q _ hq hA) hT0 hT
+        | tanh hA h0 hT0 hT =>
+          exact tanh_sound q p prec hp (by simpa [applyFun] using h) (apply_sound_all prec hp a q _ hq hA) hT0 hT
+        | lambertw hA h0 hW0 hW =>
+          exact lambertw_sound q p prec hp (by simpa [applyFun] using h) (apply_sound_all prec hp a q _ hq hA) hW0 hW
+        | asin hA h0 hR hR0 =>
+          exact asin_sound q p prec hp (by simpa [applyFun] using h) (apply_sound_all prec hp a q _ hq hA) h0 hR hR0
+        | asinh hA h0 hR hR0 =>
+          exact asinh_sound q p prec hp (by simpa [applyFun] using h) (apply_sound_all prec hp a q _ hq hA) h0 hR hR0
+    | .app _ [], _, _, _, hD => by cases hD
+    | .app _ (_ :: _ :: _), _, _, _, hD => by cases hD
+    | .cplx _ _, _, _, _, hD => by cases hD
+    | .dbl _, _, _, _, hD => by cases hD
+    | .cdbl _ _, _, _, _, hD => by cases hD
+    | .infty _, _, _, _, hD => by cases hD
+    | .nan, _, _, _, hD => by cases hD
+    | .dummy _ _, _, _, _, hD => by cases hD
+    | .const _, _, _, _, hD => by cases hD
+    | .fsym _ _, _, _, _, hD => by cases hD
+    | .bool _, _, _, _, hD => by cases hD
+  theorem applyAdd_sound_all (prec : ℕ) (hp : 1 ≤ prec) :
+      ∀ (ts : List (Expr × Expr)) (temp p : Poly) (T0 T : ℚ⟦X⟧), EqMod prec (toPS temp) T0 →
+        applyAdd prec temp ts = .ok p → DenSum ts T → EqMod prec (toPS p) (T0 + T)
+    | [], temp, p, T0, T, ht, h, hT => by
+      cases hT
+      simp only [applyAdd] at h
+      cases h
+      simpa using ht
+    | (k, v) :: t, temp, p, T0, T, ht, h, hT => by
+      cases hT with
+      | cons hK hV hT' =>
+        simp only [applyAdd, bind, Except.bind] at h
+        split at h
+        · cases h
+        · next pk hk =>
+          split at h
+          · cases h
+          · next pv hv =>
+            have e1 : toPS (padd temp (mulFull pk pv)) = toPS temp + toPS pk * toPS pv := by
+              rw [toPS_padd, toPS_mulFull]
+            have h1 := (EqMod.of_eq e1 (n := prec)).trans
+              (ht.add ((apply_sound_all prec hp k pk _ hk hK).mul (apply_sound_all prec hp v pv _ hv hV)))
+            have := applyAdd_sound_all prec hp t _ p _ _ h1 h hT'
+            rwa [add_assoc] at this
+  theorem applyMul_sound_all (prec : ℕ) (hp : 1 ≤ prec) :
+      ∀ (fs : List (Expr × Expr)) (temp p : Poly) (T0 P : ℚ⟦X⟧), EqMod prec (toPS temp) T0 →
+        applyMul prec temp fs = .ok p → DenProd fs P → EqMod prec (toPS p) (T0 * P)
+    | [], temp, p, T0, P, ht, h, hP => by
+      cases hP
+      simp only [applyMul] at h
+      cases h
+      simpa using ht
+    | (b, e) :: t, temp, p, T0, P, ht, h, hP => by
+      cases hP with
+      | cons hF hP' =>
+        simp only [applyMul, bind, Except.bind] at h
+        split at h
+        · cases h
+        · next pf hf =>
+          have hpF := powDispatch_sound_all prec hp b e _ _
+            (fun q B hq hB => apply_sound_all prec hp b q B hq hB)
+            (fun q A hq hA => apply_sound_all prec hp e q A hq hA) pf _ hf hF
+          have h1 := (toPS_mulTrunc temp pf prec).trans (ht.mul hpF)
+          have := applyMul_sound_all prec hp t _ p _ _ h1 h hP'
+          rwa [mul_assoc] at this
+end
+
+/-- **C31 for the whole modelled language.**  For every expression, every order and every formal Taylor
+series `D` of the expression (`Den e D`; tan, tanh, lambertw, asin, asinh and rational powers enter through
+their defining equations): if the model of `series(e, x, prec)` answers `p`, the coefficients of `p`
+below `prec` are exactly those of `D`.  "Partial" refers to the modelled fragment: rational coefficients,
+no poles (see `docs/C31.md`). -/
+theorem series_sound_partial (e : Expr) (prec : ℕ) (p : Poly) (D : ℚ⟦X⟧) (h : series e prec = .ok p)
+    (hD : Den e D) : ∀ k, k < prec → Series.coeff p k = coeff k D := by
+  unfold series at h
+  split at h
+  · cases h
+  · next hp =>
+    have hp' : 1 ≤ prec := by
+      have : prec ≠ 0 := by simpa using hp
+      omega
+    intro k hk
+    have := apply_sound_all prec hp' e p D h hD k hk
+    rwa [coeff_toPS] at this
+
 /-- **C31 on the proved fragment.**  For every expression `e` of the fragment `covered` (arithmetic, integer
 powers, `exp`, `f^g`, log, sin, cos, sec, atan, sinh, cosh, atanh, arbitrarily nested) and every order:
 whenever the model of `series(e, x, prec)` answers with a polynomial `p`, the expression has a formal
 Taylor series `D` (`Den e D`) and the coefficients of `p` below `prec` are exactly those of `D`. -/
-theorem series_sound_partial (e : Expr) (prec : ℕ) (p : Poly) (hc : covered e = true)
+theorem series_total_partial (e : Expr) (prec : ℕ) (p : Poly) (hc : covered e = true)
     (h : series e prec = .ok p) : ∃ D, Den e D ∧ ∀ k, k < prec → Series.coeff p k = coeff k D := by
   unfold series at h
   split at h
@@ -499,37 +782,68 @@ def sample : Expr :=
 example : covered sample = true := by decide +kernel
 example : series sample 5 = .ok [1, 0, 1, -1 / 2, 1 / 6] := by decide +kernel
 
-/-! ## the part that is stated but not proved
+/-! ## the implicitly defined functions: equations satisfied by the model's answer -/
 
-The remaining recurrences are Newton iterations on an inverse function (tan on atan, tanh on atanh,
-lambertw on w·e^w) and series_nthroot (used by rational powers, asin, asinh).  Their specifications in the
-same style (each is decidable on a sample by computing the residual in the model; the harness decides
-them against two independent oracles): -/
+/-- **series_tan**: `atan(g) ≡ s` -/
+theorem series_tan_spec (s g : Poly) (prec : ℕ) (hp : 1 ≤ prec) (h : seriesTan s prec = .ok g) :
+    constantCoeff (toPS g) = 0 ∧ EqMod prec (fatan (toPS g)) (toPS s) :=
+  let ⟨_, h0, h1⟩ := tan_spec s g prec hp h; ⟨h0, h1⟩
+/-- **series_tanh**: `atanh(g) ≡ s` -/
+theorem series_tanh_spec (s g : Poly) (prec : ℕ) (hp : 1 ≤ prec) (h : seriesTanh s prec = .ok g) :
+    constantCoeff (toPS g) = 0 ∧ EqMod prec (fatanh (toPS g)) (toPS s) :=
+  let ⟨_, h0, h1⟩ := tanh_spec s g prec hp h; ⟨h0, h1⟩
+/-- **series_lambertw**: `g·exp(g) ≡ s` -/
+theorem series_lambertw_spec (s g : Poly) (prec : ℕ) (hp : 1 ≤ prec) (h : seriesLambertw s prec = .ok g) :
+    constantCoeff (toPS g) = 0 ∧ EqMod prec (toPS g * fexp (toPS g)) (toPS s) :=
+  let ⟨_, h0, h1⟩ := lambertw_spec s g prec hp h; ⟨h0, h1⟩
+/-- **series_nthroot**: `g^n ≡ s` (n ≥ 2), `g^|n|·s ≡ 1` (n ≤ -2), positive constant terms -/
+theorem series_nthroot_spec (s g : Poly) (n : Int) (prec : ℕ) (hn : 2 ≤ n.natAbs)
+    (h : nthroot s n prec = .ok g) :
+    (0 < n → EqMod prec (toPS g ^ n.natAbs) (toPS s)) ∧
+    (n < 0 → EqMod prec (toPS g ^ n.natAbs * toPS s) 1) ∧
+    0 < constantCoeff (toPS s) ∧ (1 ≤ prec → 0 < constantCoeff (toPS g)) := nthroot_spec s g n prec hn h
+/-- **series_asin**: `g'²(1 - s²) ≡ s'²`, `g(0) = 0` -/
+theorem series_asin_spec (s g : Poly) (prec : ℕ) (h : seriesAsin s prec = .ok g) :
+    constantCoeff (toPS g) = 0 ∧
+    EqMod (prec - 1) (d⁄dX ℚ (toPS g) ^ 2 * (1 - toPS s ^ 2)) (d⁄dX ℚ (toPS s) ^ 2) := asin_spec s g prec h
+/-- **series_asinh**: `g'²(1 + s²) ≡ s'²`, `g(0) = 0` -/
+theorem series_asinh_spec (s g : Poly) (prec : ℕ) (h : seriesAsinh s prec = .ok g) :
+    constantCoeff (toPS g) = 0 ∧
+    EqMod (prec - 1) (d⁄dX ℚ (toPS g) ^ 2 * (1 + toPS s ^ 2)) (d⁄dX ℚ (toPS s) ^ 2) := asinh_spec s g prec h
 
-/-- tan: `atan(g) ≡ s` -/
-def tan_stmt : Prop := ∀ (s g : Poly) (prec : ℕ), seriesTan s prec = .ok g →
-  constantCoeff (toPS g) = 0 ∧ EqMod prec (fatan (toPS g)) (toPS s)
-/-- tanh: `atanh(g) ≡ s` -/
-def tanh_stmt : Prop := ∀ (s g : Poly) (prec : ℕ), seriesTanh s prec = .ok g →
-  constantCoeff (toPS g) = 0 ∧ EqMod prec (fatanh (toPS g)) (toPS s)
-/-- lambertw: `g·exp(g) ≡ s` -/
-def lambertw_stmt : Prop := ∀ (s g : Poly) (prec : ℕ), seriesLambertw s prec = .ok g →
-  constantCoeff (toPS g) = 0 ∧ EqMod prec (toPS g * fexp (toPS g)) (toPS s)
-/-- series_nthroot: `g^n ≡ s` (n > 0), `g^|n|·s ≡ 1` (n < 0) -/
-def nthroot_stmt : Prop := ∀ (s g : Poly) (n : Int) (prec : ℕ), nthroot s n prec = .ok g →
-  (0 < n → EqMod prec (toPS g ^ n.toNat) (toPS s)) ∧
-  (n < 0 → EqMod prec (toPS g ^ n.natAbs * toPS s) 1)
-/-- asin: `g'²(1 - s²) ≡ s'²`, `g(0) = 0` -/
-def asin_stmt : Prop := ∀ (s g : Poly) (prec : ℕ), seriesAsin s prec = .ok g →
-  constantCoeff (toPS g) = 0 ∧
-  EqMod (prec - 1) (d⁄dX ℚ (toPS g) ^ 2 * (1 - toPS s ^ 2)) (d⁄dX ℚ (toPS s) ^ 2)
-/-- asinh: `g'²(1 + s²) ≡ s'²`, `g(0) = 0` -/
-def asinh_stmt : Prop := ∀ (s g : Poly) (prec : ℕ), seriesAsinh s prec = .ok g →
-  constantCoeff (toPS g) = 0 ∧
-  EqMod (prec - 1) (d⁄dX ℚ (toPS g) ^ 2 * (1 + toPS s ^ 2)) (d⁄dX ℚ (toPS s) ^ 2)
+example : seriesTan [0, 1, 1] 6 = .ok [0, 1, 1, 1 / 3, 1, 17 / 15] := by decide +kernel
+example : seriesTanh [0, 1] 8 = .ok [0, 1, 0, -1 / 3, 0, 2 / 15, 0, -17 / 315] := by decide +kernel
+example : seriesLambertw [0, 1] 5 = .ok [0, 1, -1, 3 / 2, -8 / 3] := by decide +kernel
+example : nthroot [4, 1] 2 4 = .ok [2, 1 / 4, -1 / 64, 1 / 512] := by decide +kernel
+example : seriesAsin [0, 1, 1] 4 = .ok [0, 1, 1, 1 / 6, 1 / 4] := by decide +kernel
 
-/-- the full property at the level of the recurrences (not asserted) -/
+/-- non-vacuity of `series_sound_partial` on an implicitly defined function: `sqrt(1 + x)^2 …`: the
+series `1 + x` is a denotation of `((1 + 2x + x^2))^(1/2)`, and the model's answer must agree with it -/
+def sampleRoot : Expr :=
+  .pow (.add (.int 1) [(.sym "x", .int 2), (.pow (.sym "x") (.int 2), .int 1)]) (.rat 1 2)
+
+theorem sampleRoot_den : Den sampleRoot (1 + X) := by
+  have hB : Den (.add (.int 1) [(.sym "x", .int 2), (.pow (.sym "x") (.int 2), .int 1)])
+      (C ((1 : Int) : ℚ) + (X * C ((2 : Int) : ℚ) + (X ^ 2 * C ((1 : Int) : ℚ) + 0))) :=
+    Den.add (Den.int 1) (DenSum.cons Den.var (Den.int 2)
+      (DenSum.cons (Den.pow (DenPow.posInt 2 (by omega) Den.var)) (Den.int 1) DenSum.nil))
+  refine Den.pow (DenPow.ratPos 1 2 le_rfl le_rfl hB ?_ ?_ ?_)
+  · simp
+  · simp only [Int.cast_one, map_one, Int.cast_ofNat, pow_one]
+    have : (C (2 : ℚ) : ℚ⟦X⟧) = 2 := map_ofNat _ 2
+    rw [this]; ring
+  · simp
+
+example : series sampleRoot 6 = .ok [1, 1, 0, 0, 0, 0] := by decide +kernel
+
+/-! ## what is not proved
+
+`C31_full` (not asserted) adds *completeness* on the modelled fragment: the model answers on every
+expression that has a formal Taylor series.  Outside the model altogether (no Lean statement): symbolic
+constants (`sin(1 + x)`, `exp(c + …)`, irrational roots), Laurent intermediates (`sin(x)/x`: the real code
+loses precision there — known finding), the generic `Function` visitor, FLINT/Piranha back-ends. -/
 def C31_full : Prop :=
-  tan_stmt ∧ tanh_stmt ∧ lambertw_stmt ∧ nthroot_stmt ∧ asin_stmt ∧ asinh_stmt
+  ∀ (e : Expr) (prec : ℕ) (D : ℚ⟦X⟧), 1 ≤ prec → Den e D →
+    ∃ p, series e prec = .ok p ∧ ∀ k, k < prec → Series.coeff p k = coeff k D
 
 end SymVerif.C31
